@@ -541,11 +541,14 @@ class CountingDataHandler:
         return self._r([{'attributeID': 9, 'defaultValue': 0.0, 'highIsGood': True,
                          'stackable': True},
                         {'attributeID': 20, 'defaultValue': 1.0, 'highIsGood': True,
-                         'stackable': False}])
+                         'stackable': False},
+                        {'attributeID': 2468, 'defaultValue': 0.0, 'highIsGood': True,
+                         'stackable': True}])
 
     def get_dgmtypeattribs(self):
         return self._r([{'typeID': 1, 'attributeID': 9, 'value': 100.0 * self.scale},
-                        {'typeID': 2, 'attributeID': 20, 'value': 25.0}])
+                        {'typeID': 2, 'attributeID': 20, 'value': 25.0},
+                        {'typeID': 2, 'attributeID': 2468, 'value': 10.0}])     # warfareBuff1ID -> buff 10
 
     def get_dgmeffects(self):
         return self._r([{'effectID': 1000, 'effectCategory': 0, 'isOffensive': False,
@@ -558,7 +561,11 @@ class CountingDataHandler:
         return self._r([{'typeID': 2, 'effectID': 1000, 'isDefault': True}])
 
     def get_dbuffcollections(self):
-        return self._r([])
+        # the buff templates depend on the data too: which attribute buff 10 touches follows the scale
+        return self._r([{'buffID': 10, 'aggregateMode': 'Maximum', 'operationName': 'PostPercent',
+                         'itemModifiers': [{'dogmaAttributeID': buff_attr(self.scale)}],
+                         'locationModifiers': [], 'locationGroupModifiers': [],
+                         'locationRequiredSkillModifiers': []}])
 
     def get_skillreqs(self):
         return self._r([])
@@ -571,13 +578,28 @@ class CountingDataHandler:
         return self.version
 
 
+def buff_attr(scale):
+    return 9 if scale % 2 else 20
+
+
 def served_value(handler):
-    """the one number that depends on the data: base value of attr 9 on type 1"""
+    """what the handler serves, as the number that depends on the data (base value of attr 9 on type 1)
+    provided the buff templates it serves come from the same data; -1.0 when the served objects are a
+    mixture of two data versions"""
     from eos.cache_handler.exception import CacheHandlerError
     try:
-        return handler.get_type(1).attrs.get(9)
+        v = handler.get_type(1).attrs.get(9)
     except CacheHandlerError:
         return None
+    try:
+        tpls = handler.get_buff_templates(10)
+    except CacheHandlerError:
+        tpls = None
+    if v is not None and tpls is not None:
+        attrs = sorted(t.affectee_attr_id for t in tpls)
+        if attrs != [buff_attr(int(v / 100))]:
+            return -1.0
+    return v
 
 
 def reset_source_manager():
